@@ -217,6 +217,16 @@ func vkRun(a *List, src vkSrc, transport, entry string, shape int) (int, int, st
 }
 
 func vkJudge(member bool, writes, calls int) string {
+	return vkJudge2(member, false, writes, calls)
+}
+
+func vkJudge2(member, internal bool, writes, calls int) string {
+	if internal {
+		if calls != 1 || writes != 1 {
+			return fmt.Sprintf("a resolver-internal sub-query must not be subjected to the client access list, but the downstream handler ran %d time(s) and %d answer(s) came back (want 1/1)", calls, writes)
+		}
+		return ""
+	}
 	if !member {
 		if writes != 0 {
 			return fmt.Sprintf("source is outside the access list but %d reply write(s) reached the transport", writes)
@@ -283,7 +293,7 @@ func TestVerifC17ACL(t *testing.T) {
 			c.HarnessError(e)
 			return
 		}
-		if v := vkJudge(vkIsInternal(k.Transport) || vkMember(byS, k.List, src.addr), w, n); v != "" {
+		if v := vkJudge2(vkMember(byS, k.List, src.addr), vkIsInternal(k.Transport), w, n); v != "" {
 			c.Violation(k.key(), k.key()+": "+v, nil)
 		}
 		return
@@ -334,18 +344,17 @@ func TestVerifC17ACL(t *testing.T) {
 							return
 						}
 						evals++
-						member := member || vkIsInternal(tr)
-						v := vkJudge(member, w, n)
+						v := vkJudge2(member, vkIsInternal(tr), w, n)
 						if v != "" {
 							k := vkCase{List: list, Src: src.name, Transport: tr, Entry: en, Shape: shape}
 							a2 := New(&config.Config{AccessList: append([]string(nil), list...)})
 							w2, n2, _ := vkRun(a2, src, tr, en, shape)
-							if vkJudge(member, w2, n2) == "" {
+							if vkJudge2(member, vkIsInternal(tr), w2, n2) == "" {
 								c.HarnessError("acl violation did not reproduce: " + k.key())
 								return
 							}
 							c.Violation(k.key(), k.key()+": "+v, k)
-							if c.NumViolations() >= 20 {
+							if c.NumViolations() >= 3 {
 								c.Add("evaluations", evals)
 								return
 							}
